@@ -5,7 +5,7 @@ from lib.terms import g_term, g_list, g_pair, g_nat
 
 ID = 'C02'
 IMPORTS = ['Unify.Unify', 'Unify.RunUnify']
-THEOREMS = ['C02_unify_sound', 'C02_unify_complete_mgu', 'C02_unify_most_general', 'C02_unify_fail_no_unifier', 'C02_unify_sym_ok', 'C02_unify_sym_fail', 'C02_unify_functor_arity', 'C02_unify_fuel_irrelevant', 'C02_unify_equivariant', 'C02_unify_increment']
+THEOREMS = ['C02_unify_sound', 'C02_unify_complete_mgu', 'C02_unify_most_general', 'C02_unify_fail_no_unifier', 'C02_unify_sym_ok', 'C02_unify_sym_fail', 'C02_unify_functor_arity', 'C02_unify_fuel_irrelevant', 'C02_unify_equivariant', 'C02_unify_increment', 'C02_unify_yields_at_most_once', 'C02_generator_is_unify']
 RULE = ('random pairs of terms (depth <= 4, atoms/ints/strs/variables/compound/lists/partial lists; the second '
         'term is with probability 1/2 a mutation of the first so that most pairs nearly unify) under a stack of 0-4 '
         'earlier unifications that are still suspended; atoms come from two engine instances; each pair is also run '
